@@ -246,11 +246,10 @@ func wrapBranch(name string, message profile.Message, branch BranchRegoResult, m
 		}
 	}
 
-	acc = append(acc, fmt.Sprintf("  %s := error(\"%s\",%s, message ,[%s])", matchesVariable, name, mappingVariable, strings.Join(resultBindings, ",")))
+	acc = append(acc, fmt.Sprintf("  %s := error(\"%s\",%s, message ,[%s])", matchesVariable, regoStringContent(name), mappingVariable, strings.Join(resultBindings, ",")))
 	return acc
 }
 
 func sanitizedMessage(s string) string {
-	result := strings.ReplaceAll(s, "\n", "\\n")
-	return strings.ReplaceAll(result, "\"", "'")
+	return regoStringContent(strings.ReplaceAll(s, "\"", "'"))
 }
